@@ -755,7 +755,8 @@ def main(ctx):
         ctx.notes['translator_error'] = str(e)
     proof_ok = False
     if tie_ok:
-        proof_ok, log = ctx.build_props('C02/Props.v', extra_targets=['C02/Corr.vo', 'C02/gen/ResRegex.vo'],
+        proof_ok, log = ctx.build_props('C02/Props.v', extra_targets=['C02/Corr.vo', 'C02/gen/ResRegex.vo',
+                                                                      'C02/ToDict.vo'],
                                         scan_dirs=[lib.COQ / 'C02', lib.COQ / 'C04'])
         if not proof_ok:
             ctx.notes['build_log_tail'] = log[-1500:]
@@ -777,7 +778,7 @@ def main(ctx):
     model_ok = proof_ok
     if tie_ok and not proof_ok:
         # the proofs do not check: the model may still build (definitions only)
-        model_ok, log, _ = lib.coq_make(['C02/Corr.vo', 'C02/gen/ResCfg.vo', 'C02/gen/ResRegex.vo'])
+        model_ok, log, _ = lib.coq_make(['C02/Corr.vo', 'C02/gen/ResCfg.vo', 'C02/gen/ResRegex.vo', 'C02/ToDict.vo'])
         if not model_ok:
             ctx.log('model does not build:', log[-500:])
     # per-run obligation of the pattern tie + translator validation
@@ -827,6 +828,10 @@ def main(ctx):
     step = 300
     for k in range(0, len(cases), step):
         check_cases(ctx, cases[k:k + step], f'g{k // step}', model_ok, cfg, all_p=not proof_ok)
+    if model_ok:
+        # ToDict.v: StringSeries.to_dict_fem_attributes called directly (full / too short / ragged tables)
+        import c02_todict
+        c02_todict.run(ctx, sys.modules[__name__], {'quick': 60, 'thorough': 400}[ctx.tier])
     collect_real()
     pool.shutdown()
     if not tie_ok:
